@@ -770,7 +770,8 @@ Section Space.
                           | None => Sf hist R k
                           end.
   Proof.
-    intros hist R mem off k H Ho. rewrite ks_state_walk, (prefix_firstn _ _ _ _ H Ho).
+    intros hist R mem off k H Ho.
+    rewrite (ks_state_walk K V D keqb interp f0 hist R off k), (prefix_firstn _ _ _ _ H Ho).
     now rewrite walk_lastrec.
   Qed.
 
